@@ -130,9 +130,30 @@ def evLabel (e : Ev) : Option Label :=
 def asleep (s : Sys) (e : Ev) : Bool :=
   if e.op == "R" then s.rWait.isSome else if e.op == "W" then !(workerIdle s e.tid) else false
 
+/-- which branch of the transition relation a step of the work-queue model took (coverage record of the trace validation) -/
+def wqKind (s : Sys) (l : Label) (s' : Sys) : String :=
+  let sl (b : Bool) := if b then "sleep" else "take"
+  match l with
+  | .init _ => if s.rWait.isSome then "init-wakes-reader" else "init"
+  | .remove => if s.rq.cnt > 0 then "remove" else "remove-empty"
+  | .reset => if s.wq.cnt > 0 then "reset-moves" else "reset-nothing"
+  | .complete => if s.pending != 0 then "complete-broadcast" else "complete-nobody"
+  | .readerUpdate i o =>
+    let a := if i.isSome then (if s.pending != 0 then "in-wakes-workers" else "in") else "noin"
+    if o then s!"rupd-{a}-{sl s'.rWait.isSome}" else s!"rupd-{a}-noout"
+  | .readerWake => s!"rwake-{sl s'.rWait.isSome}"
+  | .workerUpdate w i o =>
+    let a := if i.isSome then (if s.rWait.isSome && s.rq.cnt == 0 then "in-wakes-reader" else "in") else "noin"
+    if o then s!"wupd-{a}-{sl (!(workerIdle s' w))}" else s!"wupd-{a}-noout"
+  | .workerWake w => s!"wwake-{sl (!(workerIdle s' w))}"
+
+def addCov (cov : List String) (k : String) : List String := if cov.contains k then cov else k :: cov
+def covStr (cov : List String) : String := if cov.isEmpty then "-" else "+".intercalate cov.reverse
+
 def validate (size : Nat) (evs : List String) : String := Id.run do
   let mut s := Sys.create size
   let mut i := 0
+  let mut cov : List String := []
   for raw in evs do
     match parseEv raw with
     | none => return s!"bad-event i={i}"
@@ -154,9 +175,10 @@ def validate (size : Nat) (evs : List String) : String := Id.run do
           match checkState s' with
           | some w => return s!"invariant i={i} what={w} ev={raw}"
           | none => pure ()
+          cov := addCov cov (wqKind s l s')
           s := s'
           i := i + 1
-  return s!"ok steps={i} wdeq={s.wDeq.length} rdeq={s.rDeq.length}"
+  return s!"ok steps={i} wdeq={s.wDeq.length} rdeq={s.rDeq.length} cov={covStr cov}"
 
 /-! ### esl_threads: validation of an observed start-gate trace
 records `tid/op/phase/end/startThread/threadCount`, op ∈ {T (master in WaitForStart), A (worker in Started), F (WaitForFinish done)} -/
@@ -164,6 +186,7 @@ records `tid/op/phase/end/startThread/threadCount`, op ∈ {T (master in WaitFor
 def thValidate (evs : List String) : String := Id.run do
   let mut s := Threads.Sys.create
   let mut i := 0
+  let mut cov : List String := []
   for raw in evs do
     match raw.splitOn "/" with
     | [tid, op, phase, fin, st, cnt] =>
@@ -197,11 +220,13 @@ def thValidate (evs : List String) : String := Id.run do
               -- the barrier property, checked on the observed state as well
               if !s'.passed.isEmpty && !(s'.master == Threads.MSt.released && s'.notStarted.isEmpty) then
                 return s!"invariant i={i} what=passed-before-all-arrived ev={raw}"
+            let asleepNow := if op == "T" then (match s'.master with | .waiting _ => true | _ => false) else s'.wWait.any (fun e => e.1 == tid)
+            cov := addCov cov (if op == "F" then "finish" else s!"{op}{phase}-{if asleepNow then "sleep" else "pass"}")
             s := s'
             i := i + 1
       | _, _, _ => return s!"bad-event i={i}"
     | _ => return s!"bad-event i={i}"
-  return s!"ok steps={i}"
+  return s!"ok steps={i} cov={covStr cov}"
 
 /-! ### dsqdata pipeline: validation of an observed trace
 Records (appended while the region's mutex is held, so the log is a linearisation):
@@ -261,7 +286,34 @@ def packInplace (amino : Bool) (d : List UInt8) : String :=
   | some (mem', P) => if P == (pk amino d).length && mem'.take (4 * P) == (pk amino d).flatMap enc32 then "same" else "diff"
   | none => "fault"
 
+/-- which branch of the pipeline's transition relation a step took, plus the rare global situations it happened in -/
+def pipeKinds (s : Pipeline.Sys) (l : Pipeline.Label) (s' : Pipeline.Sys) : List String :=
+  let k : String := match l with
+    | .loader =>
+      (match s.lpc with
+       | .top => if s'.lwait.isSome then "L-top-wait-recycling-empty" else "L-top-pop-recycled"
+       | .put _ _ => if s'.lwait.isSome then "L-put-wait-inbox-full" else "L-put"
+       | .eod _ => if s'.lwait.isSome then "L-eod-wait-inbox-full" else "L-eod-set"
+       | .drain => if s'.lwait.isSome then "L-drain-wait" else "L-drain-free"
+       | _ => "L-other") ++ (if s.lwait.isSome then "/woken" else "")
+    | .unpacker u =>
+      (match (s.lane u).upc with
+       | .get => if (s'.lane u).uwait.isSome then "U-get-wait" else if (s.lane u).inbox.isSome then "U-get-chunk" else "U-get-eod"
+       | .put c => if (s'.lane u).uwait.isSome then "U-put-wait-outbox-full" else if c.isSome then "U-put-chunk" else "U-put-eod"
+       | .done => "U-other") ++ (if (s.lane u).uwait.isSome then "/woken" else "")
+    | .read _ => if s'.reader.isSome then "C-read-sleep" else if s'.nchunk > s.nchunk then "C-read-chunk" else "C-read-eof"
+    | .readWake => if s'.reader.isSome then "C-wake-sleep-again" else if s'.nchunk > s.nchunk then "C-wake-chunk" else "C-wake-eof"
+    | .recycle _ _ _ => if s.lwait.isSome && (s.lpc == .top || s.lpc == .drain) then "C-recycle-wakes-loader" else "C-recycle"
+  let sit : List String :=
+    (if (List.range s'.U).all (fun u => (s'.lane u).uwait.isSome) then ["S-all-unpackers-asleep"] else []) ++
+    (if s'.reader.isSome && s'.lwait.isSome then ["S-consumer-and-loader-asleep"] else []) ++
+    (if s'.recycling.length ≥ 3 then ["S-recycling-depth>=3"] else []) ++
+    (if s'.cheld.length ≥ 3 then ["S-consumers-hold>=3"] else []) ++
+    (if (List.range s'.U).all (fun u => (s'.lane u).inbox.isSome && (s'.lane u).outbox.isSome) then ["S-all-boxes-full"] else [])
+  k :: sit
+
 def pipeValidate (U C T : Nat) (i0s : List Nat) (evs : List String) : String := Id.run do
+  let mut cov : List String := []
   -- How many chunk buffers the loader allows itself, and whether it prefers a recycled buffer to a new one, is a tuning
   -- policy, not part of the property: the model is parametric in `limit`, and the validator lets the observed run decide
   -- at each visit of the loader's `top` state (next loader record on the recycling mutex = it went for a recycled
@@ -275,7 +327,9 @@ def pipeValidate (U C T : Nat) (i0s : List Nat) (evs : List String) : String := 
     let u := (f.getD 2 "").toNat?.getD 0
     let ph := f.getD 3 ""
     let fin := f.getD 4 ""
-    if who == "L" && s.lpc == .top then s := { s with limit := if kind == "r" then s.nalloc else s.nalloc + 1 }
+    if who == "L" && s.lpc == .top then
+      s := { s with limit := if kind == "r" then s.nalloc else s.nalloc + 1 }
+      if kind != "r" then cov := addCov cov "L-create-chunk"
     if who == "L" then s := loaderLocals s
     if kind == "a" then
       -- a thread touches the contents of a chunk outside any mutex: it must be the model's owner of that buffer
@@ -325,6 +379,7 @@ def pipeValidate (U C T : Nat) (i0s : List Nat) (evs : List String) : String := 
         match pipeCheck s' with
         | some w => return s!"invariant i={i} what={w} ev={raw}"
         | none => pure ()
+        for k in pipeKinds s l s' do cov := addCov cov k
         s := s'
         i := i + 1
   s := loaderLocals s
@@ -332,7 +387,7 @@ def pipeValidate (U C T : Nat) (i0s : List Nat) (evs : List String) : String := 
   if s.nalloc != 0 || s.freed != s.nextBuf then return s!"invariant i={i} what=chunks-not-all-destroyed nalloc={s.nalloc}"
   if (List.range U).any (fun u => (s.lane u).upc != .done) then return s!"notpath i={i} why=unpacker-not-done"
   if s.returned != List.range T then return s!"invariant i={i} what=not-all-chunks-returned"
-  return s!"ok steps={i} buffers={s.nextBuf}"
+  return s!"ok steps={i} buffers={s.nextBuf} cov={covStr cov}"
 
 /-! ### dsqdata end-to-end prediction -/
 
@@ -500,6 +555,7 @@ def dsqcutOp (ws : List String) : String :=
         | .fault => "fault"
         | .fatalPackets _ _ => s!"cut-fatal who=loader chunks={cstr}"
         | .fatalMeta _ _ => s!"cut-fatal who=loader chunks={cstr}"
+        | .fatalIndex _ _ => s!"cut-fatal who=loader chunks={cstr}"
         | .eof =>
           let rs := r.1.flatMap fun c => c.2.getD []
           s!"cut-ok nseq={rs.length} chunks={cstr} digest={(digestRecs rs).toNat}"
